@@ -282,8 +282,13 @@ class ndarray:
             raise ValueError(f"cannot reshape array of size {self.size} into shape {tuple(shape)}")
         return ndarray._from_list(self._items(), shape, self.dtype)
 
-    def squeeze(self):
-        return self.reshape([d for d in self.shape if d != 1])
+    def squeeze(self, axis=None):
+        if axis is None:
+            return self.reshape([d for d in self.shape if d != 1])
+        axes = [_norm_axis(a, self.ndim) for a in (axis if isinstance(axis, (tuple, list)) else (axis,))]
+        if builtins.any(self.shape[a] != 1 for a in axes):
+            raise ValueError("cannot select an axis to squeeze out which has size not equal to one")
+        return self.reshape([d for i, d in enumerate(self.shape) if i not in axes])
 
     def copy(self, order="C"):
         if order in ("F", "K", "A") and self.ndim > 1:
